@@ -828,10 +828,23 @@ func c15Exec(raw json.RawMessage) Result {
 		if !op.Defined {
 			wantT, wantF = "undefined", "undefined"
 		}
+		// the two caller encoders of zapcore/encoder.go
+		viaEnc := func(ce zapcore.CallerEncoder) string {
+			enc := zapcore.NewMapObjectEncoder()
+			_ = enc.AddArray("c", zapcore.ArrayMarshalerFunc(func(ae zapcore.ArrayEncoder) error { ce(ec, ae); return nil }))
+			els, _ := enc.Fields["c"].([]interface{})
+			if len(els) != 1 {
+				return fmt.Sprintf("<%d elements>", len(els))
+			}
+			return fmt.Sprint(els[0])
+		}
+		es, ef := viaEnc(zapcore.ShortCallerEncoder), viaEnc(zapcore.FullCallerEncoder)
 		if tp != wantT || fp != wantF || ec.String() != wantF {
 			v = bad("C15:trimmed-path", "file %q line %d: TrimmedPath %q (want %q), FullPath %q (want %q)", file, op.Line, tp, wantT, fp, wantF)
+		} else if es != wantT || ef != wantF {
+			v = bad("C15:caller-encoder", "file %q line %d: ShortCallerEncoder %q (want %q), FullCallerEncoder %q (want %q)", file, op.Line, es, wantT, ef, wantF)
 		}
-		return Result{Impl: map[string]any{"trimmed": hx([]byte(tp)), "full": hx([]byte(fp))}, Oracle: v,
+		return Result{Impl: map[string]any{"trimmed": hx([]byte(tp)), "full": hx([]byte(fp)), "enc_short": hx([]byte(es)), "enc_full": hx([]byte(ef))}, Oracle: v,
 			Nontrivial: strings.Count(file, "/") >= 2, Shape: fmt.Sprintf("trim/slashes%d", minInt(strings.Count(file, "/"), 3))}
 	case "site", "diag", "slog":
 		o := c15Observe(op)
@@ -1121,7 +1134,7 @@ func c15Gen(r *Rand, tier string, emit func(op any)) {
 	// 3. random call paths, including deep stacks that cross the pooled slab
 	n := 700
 	if thorough {
-		n = 30000
+		n = 100000
 	}
 	for i := 0; i < n; i++ {
 		depth := pickDepth(i)
@@ -1150,7 +1163,7 @@ func c15Gen(r *Rand, tier string, emit func(op any)) {
 	// 4. diagnostics of sweetenFields
 	nd := 160
 	if thorough {
-		nd = 4000
+		nd = 12000
 	}
 	diagFEs := []string{"S.With", "S.WithLazy", "S.Debugw", "S.Infow", "S.Warnw", "S.Errorw", "S.DPanicw", "S.Panicw", "S.Fatalw", "S.Logw"}
 	for i := 0; i < nd; i++ {
@@ -1165,7 +1178,7 @@ func c15Gen(r *Rand, tier string, emit func(op any)) {
 	// 5. slog handler
 	ns := 200
 	if thorough {
-		ns = 6000
+		ns = 20000
 	}
 	slvls := []int{-8, -4, -1, 0, 2, 4, 7, 8, 12}
 	for i := 0; i < ns; i++ {
